@@ -113,13 +113,15 @@ func (s *State) havocHeap(name string) {
 		return
 	}
 	s.Heap[name] = s.X.fresh(name, srt)
-	delete(s.AsOf, name)
+	s.AsOf[name] = s.Heap["Alloc"]
 }
 
 // havocAllHeap forgets everything about the heap except allocation monotonicity.
 func (s *State) havocAllHeap(why string) {
-	names := make([]string, 0, len(s.Heap))
-	for k := range s.Heap {
+	// HeapS (shared by all states of this run) knows every array ever materialised, also those first touched on a
+	// scratch copy of this state: all of them are forgotten here
+	names := make([]string, 0, len(s.HeapS))
+	for k := range s.HeapS {
 		names = append(names, k)
 	}
 	sort.Strings(names)
